@@ -1,5 +1,6 @@
 /-
-Lemmas about the core engine model, part 3: `runProg`, `execute`, and the main induction for `query`.
+Lemmas about the core engine model, part 3: `runProg` (single reads and unordered groups),
+`install` / `execute` / `executeExt`, and the main induction for `query`.
 -/
 import QbiceVerif.Lemmas.EngineCore2
 namespace Qbice.Core
@@ -16,7 +17,7 @@ theorem AccOK.frame {p : Program} {k : Key} {s s' : St} {acc : List (Key × Val)
   intro d o hm
   obtain ⟨h1, h2, ⟨nd, hnd, hv⟩, h4⟩ := h.2 d o hm
   obtain ⟨nd', hnd', hv', _⟩ := f.keep d nd h4 hnd
-  exact ⟨h1, by rw [cur_congr f.inputs]; exact h2, ⟨nd', hnd', by rw [hv', hv]⟩, f.settled h4⟩
+  exact ⟨h1, by rw [f.cur]; exact h2, ⟨nd', hnd', by rw [hv', hv]⟩, f.settled h4⟩
 
 theorem recordDep_spec {p : Program} {k : Key} {s : St} {acc : List (Key × Val)} {d : Key} {v : Val}
     (h : AccOK p k s acc) (hd : d < k) (hc : cur p s d = some v)
@@ -47,6 +48,86 @@ theorem recordDep_spec {p : Program} {k : Key} {s : St} {acc : List (Key × Val)
       | inl hm => exact h.2 d' o' hm
       | inr e => cases e; exact ⟨hd, hc, hn, hs⟩
 
+theorem recordAll_spec {p : Program} {k : Key} {s : St} :
+    ∀ (kvs acc : List (Key × Val)), AccOK p k s acc →
+      (∀ d v, (d, v) ∈ kvs →
+        d < k ∧ cur p s d = some v ∧ (∃ nd, s.nodes d = some nd ∧ nd.value = v) ∧ Settled s d) →
+      AccOK p k s (recordAll acc kvs) ∧ (∀ e, e ∈ kvs → e ∈ recordAll acc kvs) ∧
+        ∀ e, e ∈ acc → e ∈ recordAll acc kvs := by
+  intro kvs
+  induction kvs with
+  | nil => intro acc h _; exact ⟨h, fun _ he => (by cases he), fun _ he => he⟩
+  | cons e rest ih =>
+    intro acc h hall
+    obtain ⟨d, v⟩ := e
+    obtain ⟨hd, hc, hn, hs⟩ := hall d v (List.mem_cons_self ..)
+    obtain ⟨h1, hmem, hsub⟩ := recordDep_spec h hd hc hn hs
+    obtain ⟨a, b, c⟩ := ih (recordDep acc d v) h1 (fun d' v' hm => hall d' v' (List.mem_cons_of_mem _ hm))
+    refine ⟨a, ?_, fun e he => c e (hsub e he)⟩
+    intro e he
+    simp only [List.mem_cons] at he
+    cases he with
+    | inl he => subst he; exact c _ hmem
+    | inr he => exact b e he
+
+theorem allVals_of_pairs (rec : Key → Option Val) :
+    ∀ kvs : List (Key × Val), (∀ d v, (d, v) ∈ kvs → rec d = some v) →
+      allVals rec (kvs.map (·.1)) = some (kvs.map (·.2)) := by
+  intro kvs
+  induction kvs with
+  | nil => intro _; rfl
+  | cons e rest ih =>
+    intro h
+    obtain ⟨d, v⟩ := e
+    simp only [List.map_cons, allVals, h d v (List.mem_cons_self ..),
+      ih (fun d' v' hm => h d' v' (List.mem_cons_of_mem _ hm))]
+
+/-- the members of an unordered group, queried one after the other -/
+theorem askMany_spec {p : Program} {q : Q} {k : Key} (hq : QSpec p q k) :
+    ∀ (ks : List Key) (s : St), (∀ d, d ∈ ks → d < k) → Inv p s →
+      Sat (askMany q ks s) (fun r =>
+        Inv p r.2 ∧ Frame p s r.2 ∧ Touches k s r.2 ∧ r.1.map (·.1) = ks ∧
+        ∀ d v, (d, v) ∈ r.1 →
+          d < k ∧ cur p s d = some v ∧ (∃ nd, r.2.nodes d = some nd ∧ nd.value = v) ∧ Settled r.2 d) := by
+  intro ks
+  induction ks with
+  | nil =>
+    intro s _ inv
+    simp only [askMany]
+    exact ⟨inv, Frame.refl p s, Touches.refl _ s, rfl, fun _ _ h => (by cases h)⟩
+  | cons d rest ih =>
+    intro s hb inv
+    have hd : d < k := hb d (List.mem_cons_self ..)
+    have hqd := hq d hd s inv
+    simp only [askMany]
+    cases hr : q d s with
+    | error e => rw [hr] at hqd; simpa [Sat] using hqd
+    | ok r =>
+      obtain ⟨v, s1⟩ := r
+      rw [hr] at hqd
+      obtain ⟨i1, f1, t1, c1, nd, hnd, hvd, hver⟩ := hqd
+      simp only at i1 f1 t1 c1 hnd hvd hver ⊢
+      have hrest := ih s1 (fun d' hm => hb d' (List.mem_cons_of_mem _ hm)) i1
+      cases hr2 : askMany q rest s1 with
+      | error e => rw [hr2] at hrest; simpa [Sat] using hrest
+      | ok r2 =>
+        obtain ⟨kvs, s2⟩ := r2
+        rw [hr2] at hrest
+        obtain ⟨i2, f2, t2, hk2, hall⟩ := hrest
+        simp only at i2 f2 t2 hk2 hall ⊢
+        refine ⟨i2, f1.trans f2, (t1.mono (by komega)).trans t2, by simp [hk2], ?_⟩
+        intro d' v' hm
+        simp only [List.mem_cons] at hm
+        cases hm with
+        | inl e =>
+          cases e
+          have hs1 : Settled s1 d := verified_settled i1 hnd hver
+          obtain ⟨nd', hnd', hv', _⟩ := f2.keep d nd hs1 hnd
+          exact ⟨hd, c1, ⟨nd', hnd', by rw [hv', hvd]⟩, f2.settled hs1⟩
+        | inr hm =>
+          obtain ⟨a, b, c, e⟩ := hall d' v' hm
+          exact ⟨a, by rw [← f1.cur]; exact b, c, e⟩
+
 theorem runProg_spec {p : Program} {q : Q} {k : Key} (hq : QSpec p q k) :
     ∀ (prog : Prog) (acc : List (Key × Val)) (s : St), prog.Below k → Inv p s → AccOK p k s acc →
       Sat (runProg q prog acc s) (fun r =>
@@ -71,7 +152,7 @@ theorem runProg_spec {p : Program} {q : Q} {k : Key} (hq : QSpec p q k) :
       obtain ⟨i1, f1, t1, c1, nd, hnd, hvd, hver⟩ := hqd
       simp only at i1 f1 t1 c1 hnd hvd hver ⊢
       have hacc1 := hacc.frame f1
-      obtain ⟨hacc2, hmem, hsub⟩ := recordDep_spec hacc1 hd (by rw [cur_congr f1.inputs]; exact c1)
+      obtain ⟨hacc2, hmem, hsub⟩ := recordDep_spec hacc1 hd (by rw [f1.cur]; exact c1)
         ⟨nd, hnd, hvd⟩ (verified_settled i1 hnd hver)
       refine (ih v (recordDep acc d v) s1 (hc v) i1 hacc2).mono ?_
       rintro ⟨v', deps, s2⟩ ⟨i2, f2, t2, a2, sub2, tr2⟩
@@ -79,9 +160,166 @@ theorem runProg_spec {p : Program} {q : Q} {k : Key} (hq : QSpec p q k) :
       intro rec hrec
       simp only [evalProg, hrec d v (sub2 _ hmem)]
       exact tr2 rec hrec
+  | askAll ks cont ih =>
+    intro acc s hb inv hacc
+    obtain ⟨hd, hc⟩ := hb
+    have hall := askMany_spec hq ks s hd inv
+    simp only [runProg]
+    cases hr : askMany q ks s with
+    | error e => rw [hr] at hall; simpa [Sat] using hall
+    | ok r =>
+      obtain ⟨kvs, s1⟩ := r
+      rw [hr] at hall
+      obtain ⟨i1, f1, t1, hks, hmem⟩ := hall
+      simp only at i1 f1 t1 hks hmem ⊢
+      have hacc1 := hacc.frame f1
+      obtain ⟨hacc2, hin, hsub⟩ := recordAll_spec kvs acc hacc1 (fun d v hm => by
+        obtain ⟨a, b, c, e⟩ := hmem d v hm
+        exact ⟨a, by rw [f1.cur]; exact b, c, e⟩)
+      refine (ih (kvs.map (·.2)) (recordAll acc kvs) s1 (hc _) i1 hacc2).mono ?_
+      rintro ⟨v', deps, s2⟩ ⟨i2, f2, t2, a2, sub2, tr2⟩
+      refine ⟨i2, f1.trans f2, t1.trans t2, a2, fun e he => sub2 e (hsub e he), ?_⟩
+      intro rec hrec
+      have := allVals_of_pairs rec kvs (fun d v hm => hrec d v (sub2 _ (hin _ hm)))
+      rw [hks] at this
+      simp only [evalProg, this]
+      exact tr2 rec hrec
+
+/-- publishing a freshly computed node for a key that is not settled -/
+theorem install_spec {p : Program} (wf : WF p) {k : Key} {d : NodeDef} (hp : p[k]? = some d)
+    {s1 : St} (i1 : Inv p s1) (hj1 : Just p s1 k) {nn : Node}
+    (hkind : nn.kind = d.kind) (hni : d.kind ≠ .input) (hlv : nn.lastVerified = s1.epoch)
+    (hacc : AccOK p k s1 nn.deps) (hnorm : nn.kind ≠ .normal → nn.deps = [])
+    (htr : nn.kind = .normal → TraceOK d.prog nn.deps nn.value)
+    (hext : nn.kind = .external → extOf p s1 k = some nn.value) :
+    Inv p (install s1 k nn) ∧ Frame p s1 (install s1 k nn) ∧ Touches (k + 1) s1 (install s1 k nn) ∧
+      (install s1 k nn).nodes k = some nn ∧ (install s1 k nn).epoch = s1.epoch := by
+  have hns : ¬ Settled s1 k := just_not_settled wf i1 hj1
+  have n3k : (install s1 k nn).nodes k = some nn := by simp [install, setNode]
+  have n3o : ∀ x, x ≠ k → (install s1 k nn).nodes x = s1.nodes x := by
+    intro x hx; simp [install, setNode, clearDirtyFrom, hx]
+  have d3k : ∀ y, (install s1 k nn).dirty k y = false := by
+    intro y; simp [install, setNode, clearDirtyFrom]
+  have d3o : ∀ x y, x ≠ k → (install s1 k nn).dirty x y = s1.dirty x y := by
+    intro x y hx; simp [install, setNode, clearDirtyFrom, hx]
+  have e3 : (install s1 k nn).epoch = s1.epoch := rfl
+  have w3 : (install s1 k nn).world = s1.world := rfl
+  have l3 : (install s1 k nn).log = s1.log ++ [k] := rfl
+  generalize install s1 k nn = s3 at n3k n3o d3k d3o e3 w3 l3 ⊢
+  have sh : ∀ x, Settled s1 x → Settled s3 x := by
+    intro x hx
+    apply hx.transfer
+    · intro y ny hy hny
+      have : y ≠ k := fun e => hns (e ▸ hy)
+      exact ⟨ny, by rw [n3o y this]; exact hny, rfl, rfl⟩
+    · intro y dd hy hdd
+      have : y ≠ k := fun e => hns (e ▸ hy)
+      rw [d3o y dd this] at hdd; exact hdd
+  have nodeK : ∀ n0, s1.nodes k = some n0 → n0.kind = d.kind := by
+    intro n0 h0
+    obtain ⟨d', hp', hk', _⟩ := i1.kind k n0 h0
+    rw [hp] at hp'; cases hp'
+    exact hk'.symm
+  have i3 : Inv p s3 := by
+    constructor
+    · intro x nx hx
+      by_cases e : x = k
+      · subst e; rw [n3k] at hx; cases hx
+        exact ⟨d, hp, hkind.symm, hnorm⟩
+      · rw [n3o x e] at hx; exact i1.kind x nx hx
+    · intro x nx hx
+      by_cases e : x = k
+      · subst e; rw [n3k] at hx; cases hx
+        intro d' o' hm; exact (hacc.2 d' o' hm).1
+      · rw [n3o x e] at hx; exact i1.down x nx hx
+    · intro x nx hx
+      by_cases e : x = k
+      · subst e; rw [n3k] at hx; cases hx; exact hacc.1
+      · rw [n3o x e] at hx; exact i1.nodup x nx hx
+    · intro x nx dx hx hpx hix
+      by_cases e : x = k
+      · subst e; rw [n3k] at hx; cases hx
+        rw [hp] at hpx; cases hpx; exact htr hix
+      · rw [n3o x e] at hx; exact i1.trace x nx dx hx hpx hix
+    · intro x nx hx
+      by_cases e : x = k
+      · subst e; rw [n3k] at hx; cases hx; rw [hlv, e3]; exact Nat.le_refl _
+      · rw [n3o x e] at hx; rw [e3]; exact i1.stamp x nx hx
+    · intro x nx hx hvx d' o' hm
+      by_cases e : x = k
+      · subst e; exact d3k d'
+      · rw [n3o x e] at hx; rw [d3o x d' e]
+        exact i1.verified_clean x nx hx (by rw [hvx, e3]) d' o' hm
+    · intro x nx hx d' o' hm hcl
+      by_cases e : x = k
+      · subst e; rw [n3k] at hx; cases hx
+        obtain ⟨hlt, _, ⟨nd, hnd, hvd⟩, hsd⟩ := hacc.2 d' o' hm
+        have : d' ≠ x := by komega
+        exact ⟨⟨nd, by rw [n3o d' this]; exact hnd, hvd⟩, sh d' hsd⟩
+      · rw [n3o x e] at hx; rw [d3o x d' e] at hcl
+        obtain ⟨⟨nd, hnd, hvd⟩, hsd⟩ := i1.clean_settled x nx hx d' o' hm hcl
+        have : d' ≠ k := fun e => hns (e ▸ hsd)
+        exact ⟨⟨nd, by rw [n3o d' this]; exact hnd, hvd⟩, sh d' hsd⟩
+  have hpins : ∀ x, x ≠ k → pinsOf s3 x = pinsOf s1 x := by
+    intro x e; simp only [pinsOf, n3o x e]
+  have f13 : Frame p s1 s3 := by
+    constructor
+    · exact e3
+    · intro a b h
+      by_cases e : a = k
+      · subst e; rw [d3k b] at h; cases h
+      · rw [d3o a b e] at h; exact h
+    · funext x
+      simp only [inputsOf]
+      by_cases e : x = k
+      · subst e; rw [n3k]
+        have h1 : ¬ nn.kind = .input := by rw [hkind]; exact hni
+        cases h0 : s1.nodes x with
+        | none => simp [h1]
+        | some n0 =>
+          have h2 : ¬ n0.kind = .input := by rw [nodeK n0 h0]; exact hni
+          simp [h1, h2]
+      · rw [n3o x e]
+    · funext x
+      simp only [extOf, w3]
+      by_cases e : x = k
+      · subst e
+        by_cases hx : nn.kind = .external
+        · have := hext hx
+          simp only [extOf] at this
+          rw [this]
+          simp [extRef, pinsOf, n3k, hx]
+        · have h1 : pinsOf s3 x = none := by simp [pinsOf, n3k, hx]
+          have h2 : pinsOf s1 x = none := by
+            simp only [pinsOf]
+            cases h0 : s1.nodes x with
+            | none => rfl
+            | some n0 =>
+              have : ¬ n0.kind = .external := by rw [nodeK n0 h0, ← hkind]; exact hx
+              simp [this]
+          simp only [extRef, h1, h2]
+      · simp only [extRef, hpins x e]
+    · exact w3
+    · intro x nx hsx hx
+      have : x ≠ k := fun e => hns (e ▸ hsx)
+      exact ⟨nx, by rw [n3o x this]; exact hx, rfl, rfl⟩
+    · intro x
+      by_cases e : x = k
+      · subst e; exact Or.inr ⟨nn, n3k, by rw [hlv, e3]⟩
+      · exact Or.inl (n3o x e)
+    · refine ⟨[k], l3, by simp, fun x hx => ?_, fun x hx hx' => ?_⟩
+      · rw [List.mem_singleton] at hx; subst hx; exact ⟨hj1, nn, n3k, by rw [hlv, e3]⟩
+      · rw [List.mem_singleton]
+        false_or_by_contra
+        rename_i e
+        exact hx' (by rw [n3o x e]; exact hx)
+  refine ⟨i3, f13, ?_, n3k, e3⟩
+  intro x hx
+  have hxk : x ≠ k := by komega
+  exact ⟨n3o x hxk, fun y => d3o x y hxk⟩
 
 theorem execute_spec {p : Program} (wf : WF p) {q : Q} {k : Key} (hq : QSpec p q k) {d : NodeDef}
-    (hp : p[k]? = some d) (hi : d.isInput = false) {s : St} (inv : Inv p s) (hj : Just p s k) :
+    (hp : p[k]? = some d) (hi : d.kind = .normal) {s : St} (inv : Inv p s) (hj : Just p s k) :
     Sat (execute q k d.prog s) (QPost p k s) := by
   have hrun := runProg_spec hq d.prog [] s (wf k d hp hi) inv ⟨by simp, fun _ _ h => by cases h⟩
   unfold execute
@@ -92,122 +330,38 @@ theorem execute_spec {p : Program} (wf : WF p) {q : Q} {k : Key} (hq : QSpec p q
     rw [hr] at hrun
     obtain ⟨i1, f1, t1, a1, _, tr⟩ := hrun
     simp only at i1 f1 t1 a1 tr ⊢
-    -- `k` is not settled in `s1`
     have hk1 : s1.nodes k = s.nodes k := (t1 k (Nat.le_refl _)).1
     have hj1 : Just p s1 k := by
       obtain ⟨hnv, h⟩ := hj
       refine ⟨?_, ?_⟩
       · rintro ⟨n, hn, hv⟩
         exact hnv ⟨n, by rw [← hk1]; exact hn, by rw [hv, f1.epoch]⟩
-      · rw [hk1, cur_congr f1.inputs]; exact h
-    have hns : ¬ Settled s1 k := just_not_settled wf i1 hj1
-    -- the new state
-    let nn : Node := { isInput := false, lastVerified := s1.epoch, value := v, deps := deps }
-    let s3 : St := { setNode (clearDirtyFrom s1 k) k nn with log := s1.log ++ [k] }
-    have hs3 : ({ setNode (clearDirtyFrom s1 k) k
-          { isInput := false, lastVerified := (clearDirtyFrom s1 k).epoch, value := v, deps := deps } with
-          log := (setNode (clearDirtyFrom s1 k) k
-            { isInput := false, lastVerified := (clearDirtyFrom s1 k).epoch, value := v, deps := deps }).log ++ [k] } : St)
-        = s3 := rfl
-    rw [hs3]
-    have n3k : s3.nodes k = some nn := by simp [s3, setNode]
-    have n3o : ∀ x, x ≠ k → s3.nodes x = s1.nodes x := by
-      intro x hx; simp [s3, setNode, clearDirtyFrom, hx]
-    have d3k : ∀ y, s3.dirty k y = false := by
-      intro y; simp [s3, setNode, clearDirtyFrom]
-    have d3o : ∀ x y, x ≠ k → s3.dirty x y = s1.dirty x y := by
-      intro x y hx; simp [s3, setNode, clearDirtyFrom, hx]
-    have e3 : s3.epoch = s1.epoch := rfl
-    have sh : ∀ x, Settled s1 x → Settled s3 x := by
-      intro x hx
-      apply hx.transfer
-      · intro y ny hy hny
-        have : y ≠ k := fun e => hns (e ▸ hy)
-        exact ⟨ny, by rw [n3o y this]; exact hny, rfl, rfl⟩
-      · intro y dd hy hdd
-        have : y ≠ k := fun e => hns (e ▸ hy)
-        rw [d3o y dd this] at hdd; exact hdd
-    have nodeK : ∀ n0, s1.nodes k = some n0 → n0.isInput = false := by
-      intro n0 h0
-      obtain ⟨d', hp', hk', _⟩ := i1.kind k n0 h0
-      rw [hp] at hp'; cases hp'
-      rw [← hk', hi]
-    have i3 : Inv p s3 := by
-      constructor
-      · intro x nx hx
-        by_cases e : x = k
-        · subst e; rw [n3k] at hx; cases hx
-          exact ⟨d, hp, hi, fun h => by cases h⟩
-        · rw [n3o x e] at hx; exact i1.kind x nx hx
-      · intro x nx hx
-        by_cases e : x = k
-        · subst e; rw [n3k] at hx; cases hx
-          intro d' o' hm; exact (a1.2 d' o' hm).1
-        · rw [n3o x e] at hx; exact i1.down x nx hx
-      · intro x nx hx
-        by_cases e : x = k
-        · subst e; rw [n3k] at hx; cases hx; exact a1.1
-        · rw [n3o x e] at hx; exact i1.nodup x nx hx
-      · intro x nx dx hx hpx hix
-        by_cases e : x = k
-        · subst e; rw [n3k] at hx; cases hx
-          rw [hp] at hpx; cases hpx; exact tr
-        · rw [n3o x e] at hx; exact i1.trace x nx dx hx hpx hix
-      · intro x nx hx
-        by_cases e : x = k
-        · subst e; rw [n3k] at hx; cases hx; exact Nat.le_refl _
-        · rw [n3o x e] at hx; exact i1.stamp x nx hx
-      · intro x nx hx hvx d' o' hm
-        by_cases e : x = k
-        · subst e; exact d3k d'
-        · rw [n3o x e] at hx; rw [d3o x d' e]
-          exact i1.verified_clean x nx hx hvx d' o' hm
-      · intro x nx hx d' o' hm hcl
-        by_cases e : x = k
-        · subst e; rw [n3k] at hx; cases hx
-          obtain ⟨hlt, _, ⟨nd, hnd, hvd⟩, hsd⟩ := a1.2 d' o' hm
-          have : d' ≠ x := by komega
-          exact ⟨⟨nd, by rw [n3o d' this]; exact hnd, hvd⟩, sh d' hsd⟩
-        · rw [n3o x e] at hx; rw [d3o x d' e] at hcl
-          obtain ⟨⟨nd, hnd, hvd⟩, hsd⟩ := i1.clean_settled x nx hx d' o' hm hcl
-          have : d' ≠ k := fun e => hns (e ▸ hsd)
-          exact ⟨⟨nd, by rw [n3o d' this]; exact hnd, hvd⟩, sh d' hsd⟩
-    have f13 : Frame p s1 s3 := by
-      constructor
-      · exact e3
-      · intro a b h
-        by_cases e : a = k
-        · subst e; rw [d3k b] at h; cases h
-        · rw [d3o a b e] at h; exact h
-      · funext x
-        simp only [inputsOf]
-        by_cases e : x = k
-        · subst e; rw [n3k]
-          cases h0 : s1.nodes x with
-          | none => rfl
-          | some n0 => simp [nn, nodeK n0 h0]
-        · rw [n3o x e]
-      · intro x nx hsx hx
-        have : x ≠ k := fun e => hns (e ▸ hsx)
-        exact ⟨nx, by rw [n3o x this]; exact hx, rfl, rfl⟩
-      · intro x
-        by_cases e : x = k
-        · subst e; exact Or.inr ⟨nn, n3k, rfl⟩
-        · exact Or.inl (n3o x e)
-      · exact ⟨[k], rfl, by simp, fun x hx => by
-          rw [List.mem_singleton] at hx; subst hx; exact ⟨hj1, nn, n3k, rfl⟩⟩
-    refine ⟨i3, f1.trans f13, ?_, ?_, nn, n3k, rfl, rfl⟩
-    · intro x hx
-      have hxk : x ≠ k := by komega
-      obtain ⟨a, b⟩ := t1 x (by komega)
-      exact ⟨by rw [n3o x hxk]; exact a, fun y => by rw [d3o x y hxk]; exact b y⟩
-    · simp only [cur, evalSpec, hp, hi, Bool.false_eq_true, if_false]
-      apply tr
-      intro d' o' hm
-      obtain ⟨hlt, hc, _, _⟩ := a1.2 d' o' hm
-      rw [evalSpec_fuel_stable wf _ d' k hlt]
-      rw [cur_congr f1.inputs] at hc
-      exact hc
+      · rw [hk1, f1.cur]; exact h
+    obtain ⟨i3, f13, t13, n3k, e3⟩ := install_spec wf hp i1 hj1
+      (nn := { kind := .normal, lastVerified := s1.epoch, value := v, deps := deps })
+      hi.symm (by rw [hi]; decide) rfl a1 (fun h => absurd rfl h) (fun _ => tr) (fun h => by cases h)
+    refine ⟨i3, f1.trans f13, (t1.mono (by komega)).trans t13, ?_, _, n3k, rfl, e3.symm⟩
+    simp only [cur, evalSpec, hp, hi]
+    apply tr
+    intro d' o' hm
+    obtain ⟨hlt, hc, _, _⟩ := a1.2 d' o' hm
+    rw [evalSpec_fuel_stable wf _ _ d' k hlt]
+    rw [f1.cur] at hc
+    exact hc
+
+theorem executeExt_spec {p : Program} (wf : WF p) {k : Key} {d : NodeDef}
+    (hp : p[k]? = some d) (hi : d.kind = .external) {s : St} (inv : Inv p s) (hn : s.nodes k = none) :
+    QPost p k s (executeExt k d s) := by
+  have hj : Just p s k := ⟨fun ⟨n, h, _⟩ => (by rw [hn] at h; cases h), Or.inl hn⟩
+  have hext : extOf p s k = some (d.ext s.world) := by
+    simp [extOf, extRef, pinsOf, hn, hp]
+  obtain ⟨i3, f13, t13, n3k, e3⟩ := install_spec wf hp inv hj
+    (nn := { kind := .external, lastVerified := s.epoch, value := d.ext s.world, deps := [] })
+    hi.symm (by rw [hi]; decide) rfl ⟨by simp, fun _ _ h => by cases h⟩ (fun _ => rfl)
+    (fun h => by cases h) (fun _ => hext)
+  refine ⟨i3, f13, t13, ?_, _, n3k, rfl, e3.symm⟩
+  simp only [cur, evalSpec, hp, hi]
+  exact hext
 
 /-- main induction: with fuel above the key, `query` meets `QPost` and never runs out of fuel -/
 theorem query_spec {p : Program} (wf : WF p) :
@@ -226,10 +380,10 @@ theorem query_spec {p : Program} (wf : WF p) :
       | none => simp [Sat]
       | some d =>
         simp only
-        cases hi : d.isInput with
-        | true => simp [Sat]
-        | false =>
-          simp only [Bool.false_eq_true, if_false]
+        cases hi : d.kind with
+        | input => simp [Sat]
+        | external => exact executeExt_spec wf hp hi inv hn
+        | normal =>
           exact execute_spec wf hq hp hi inv ⟨fun ⟨n, h, _⟩ => (by rw [hn] at h; cases h), Or.inl hn⟩
     | some n =>
       simp only
@@ -246,9 +400,17 @@ theorem query_spec {p : Program} (wf : WF p) :
             intro d o hm; rw [hnd hin] at hm; cases hm
           refine ⟨inv.stamp' hn hcl, Frame.stamp' p hn, Touches.stamp' s k _, ?_,
             { n with lastVerified := s.epoch }, by simp [setNode], rfl, rfl⟩
-          simp [cur, evalSpec, hp, hki, hin, inputsOf, hn]
+          have hs : Settled s k := by
+            refine Settled.mk k n hn hcl ?_ ?_
+            · intro d o hm; rw [hnd hin] at hm; cases hm
+            · intro d o hm; rw [hnd hin] at hm; cases hm
+          obtain ⟨n', hn', hc⟩ := settled_correct wf inv hs
+          rw [hn] at hn'; cases hn'; exact hc
         · rename_i hin
-          have hin : n.isInput = false := by simpa using hin
+          have hin : n.kind = .normal := by
+            false_or_by_contra
+            rename_i h
+            exact hin h
           rw [hp]
           simp only
           have hrep := repairDeps_spec hq n.deps s inv hn (fun _ h => h)
@@ -264,13 +426,13 @@ theorem query_spec {p : Program} (wf : WF p) :
               simp only
               obtain ⟨dd, oo, hm, hne⟩ := ht rfl
               have hj1 : Just p s1 k := by
-                refine ⟨?_, Or.inr ⟨n, dd, oo, k1, hm, by rw [cur_congr f1.inputs]; exact hne⟩⟩
+                refine ⟨?_, Or.inr ⟨n, dd, oo, k1, hm, by rw [f1.cur]; exact hne⟩⟩
                 rintro ⟨n', hn', hv'⟩
                 rw [k1] at hn'; cases hn'
                 exact hv (by rw [hv', f1.epoch])
               refine (execute_spec wf hq hp (by rw [hki, hin]) i1 hj1).mono ?_
               rintro ⟨v, s2⟩ ⟨i2, f2, t2, c2, hnode⟩
-              exact ⟨i2, f1.trans f2, t1.trans t2, by rw [← cur_congr f1.inputs]; exact c2, hnode⟩
+              exact ⟨i2, f1.trans f2, t1.trans t2, by rw [← f1.cur]; exact c2, hnode⟩
             | false =>
               simp only
               have hcl := hf rfl
@@ -282,6 +444,6 @@ theorem query_spec {p : Program} (wf : WF p) :
                 · intro d' o' hm; exact (i1.clean_settled k n k1 d' o' hm (hcl d' o' hm)).2
               obtain ⟨n', hn', hc⟩ := settled_correct wf i1 hs
               rw [k1] at hn'; cases hn'
-              rw [← cur_congr f1.inputs]; exact hc
+              rw [← f1.cur]; exact hc
 
 end Qbice.Core
